@@ -6,6 +6,6 @@ mkdir -p out/thorough
 ids="$@"
 if [ -z "$ids" ]; then ids=$(./check list | python3 -c "import sys,json; print(' '.join(sorted(json.load(sys.stdin).keys())))"); fi
 for p in $ids; do
-  ./check $p --tier thorough > out/thorough/$p.log 2>&1
+  ./check $p --tier thorough ${BUDGET:+--budget $BUDGET} > out/thorough/$p.log 2>&1
   echo "$p exit=$? $(tail -1 out/thorough/$p.log)" | tee -a out/thorough/SUMMARY.txt
 done
